@@ -59,6 +59,15 @@ func (e *Exec) opError(op string, inner IfaceV) IfaceV {
 	return IfaceV{T: t, V: PtrV{C: c}}
 }
 
+// addrInUse: os.NewSyscallError("bind", syscall.EADDRINUSE), as the kernel reports it
+func (e *Exec) addrInUse() IfaceV {
+	st := types.NewPointer(e.prog.namedType("os", "SyscallError"))
+	c := e.newCell(st.Elem())
+	e.store(e.ipField(c, "Syscall"), concStr("bind"))
+	e.store(e.ipField(c, "Err"), IfaceV{T: e.prog.namedType("syscall", "Errno"), V: e.tc.Const(64, 0x62)})
+	return IfaceV{T: st, V: PtrV{C: c}}
+}
+
 func (e *Exec) errClosedVal() IfaceV {
 	pkg := e.prog.byPath["net"]
 	g := pkg.Var("ErrClosed")
@@ -93,7 +102,7 @@ func registerNetModel(p *Program) {
 			return TupleV{PtrV{}, e.opError("listen", e.errValue("bind: injected fault"))}
 		}
 		if ln, ok := m.bound[key]; ok && !ln.closed {
-			return TupleV{PtrV{}, e.opError("listen", e.errValue("bind: address already in use"))}
+			return TupleV{PtrV{}, e.opError("listen", e.addrInUse())}
 		}
 		lt := e.prog.namedType("net", "TCPListener")
 		c := e.newCell(lt)
